@@ -1,0 +1,26 @@
+//go:build verif
+
+package core
+
+// Constructors for the model-based verification harness (/verif, property C15). Compiled only with
+// the build tag `verif`; nothing here is referenced by production code.
+
+// VerifBlockEvent builds a BlockEvent tagged with its announcing source (the field is unexported).
+func VerifBlockEvent(height int64, addr string) BlockEvent {
+	return BlockEvent{Height: height, addr: addr}
+}
+
+// VerifEventAddr returns the source tag of an event.
+func VerifEventAddr(ev BlockEvent) string { return ev.addr }
+
+// VerifBlockSource is the (unexported) single-endpoint interface a MultiSource fans over.
+type VerifBlockSource = blockSource
+
+// VerifNewMultiSource builds a MultiSource over scripted sources keyed by address.
+func VerifNewMultiSource(sources map[string]VerifBlockSource) *MultiSource {
+	tagged := make([]taggedSource, 0, len(sources))
+	for addr, s := range sources {
+		tagged = append(tagged, taggedSource{fetcher: s, addr: addr})
+	}
+	return newMultiSource(tagged...)
+}
